@@ -343,8 +343,9 @@ def zernike_remove(opd, mask, modes, rho=None, theta=None):
     opd = np.asarray(opd)
     mask = np.asarray(mask)
 
-    coeffs = zernike_fit(opd, mask, modes, rho, theta)
-    fit_opd = zernike_compose(mask, coeffs, rho, theta)
+    coeffs = zernike_fit(opd, mask, modes, rho=rho, theta=theta)
+    basis = zernike_basis(mask, modes, rho=rho, theta=theta)
+    fit_opd = np.einsum('i,ijk->jk', coeffs, basis)
 
     residual = opd - fit_opd
 
